@@ -183,8 +183,8 @@ class Ref:
                 return None  # ended handle: outside this property
             d = idx[0]
             if t0 == "c":
-                self._f21_check(d)
                 self._flush()
+                self._f21_check(d)
                 if d == 0:
                     self._end_all(True)
                 else:
